@@ -1,18 +1,17 @@
 #!/usr/bin/env python3
 """Turns sweep outputs (tools/sweep_mutants.sh) into seeded/detection.json, the
 detected_by field of each seeded/<id>/meta.json, and a markdown table.
-usage: detection_table.py <round-prefix e.g. r2> <sweep.out> [...]"""
+usage: detection_table.py <sweep.out> [...]   (output of tools/sweep_seeded.sh)"""
 import json, os, re, sys
-pref = sys.argv[1]
 rows = {}
-for f in sys.argv[2:]:
+for f in sys.argv[1:]:
     for l in open(f, errors='replace'):
-        m = re.match(r'^(C\d\d)-(m\d): exit=(\d+) (.*)', l)
+        m = re.match(r'^(C\d\d)-((?:r2)?m\d): exit=(\d+) (.*)', l)
         if not m:
             continue
         pid, mn, rc, rest = m.groups()
         what = re.split(r'replay=\S+', rest)[-1].strip() if 'VIOLATION' in rest else rest.strip()
-        rows['%s-%s%s' % (pid, pref, mn)] = {'exit': int(rc), 'summary': re.sub(r'\s+', ' ', what)[:400],
+        rows['%s-%s' % (pid, mn)] = {'exit': int(rc), 'summary': re.sub(r'\s+', ' ', what)[:400],
                                             'violations': int((re.search(r'violations=(\d+)', rest) or [0, 0])[1])}
 det_path = '/verif/seeded/detection.json'
 det = json.load(open(det_path)) if os.path.exists(det_path) else {}
